@@ -1,4 +1,5 @@
 import Plotink.Proofs.C07
+import Plotink.Proofs.C07Gen
 
 /-! # C07 — legacy serial primitives: one write, aligned replies, no exception on faults
 
@@ -81,11 +82,11 @@ theorem C07_text_data (k d : Nat) (data : Bytes) (rest : List Rd) (hd : d ≤ k)
 
 /-- `arrived`, spelled out (2): silence (only empty reads, then nothing), or an I/O exception before any
 line, means that nothing arrived -/
-theorem C07_text_silence (k d : Nat) (tail : List Rd) (ht : tail = [] ∨ ∃ t, tail = .raiseIO :: t) :
+theorem C07_text_silence (k d : Nat) (tail : List Rd) (ht : tail = [] ∨ ∃ c t, tail = .raise c :: t) :
     arrived k (List.replicate d .empty ++ tail) = [] := by
   induction d generalizing k with
   | zero =>
-    rcases ht with rfl | ⟨t, rfl⟩
+    rcases ht with rfl | ⟨c, t, rfl⟩
     · simpa using arrived_nil k
     · cases k <;> simp [arrived]
   | succ d ih =>
@@ -186,9 +187,204 @@ if the retry loop of `query` does not decode, then after an empty first read —
 read raises — `query` raises `TypeError` (`'Err:' in <bytes>`). -/
 theorem C07_decode_needed (P : Params) (hdec : P.decodeRetry = false) (hr : 1 ≤ P.retry) (c : Str)
     (hc : isAscii c = true) (r : Rd) (rest : List Rd) (writes : List Wr) (log : List Bytes) (nread : Nat)
-    (hw : firstWriteOk ⟨.empty :: r :: rest, writes, log, nread⟩ = true) (hne : r ≠ .raiseIO) :
+    (hw : firstWriteOk ⟨.empty :: r :: rest, writes, log, nread⟩ = true) (hne : ∀ c, r ≠ .raise c) :
     (query P c ⟨.empty :: r :: rest, writes, log, nread⟩).1 = .error .typeError :=
   query_undecoded P hdec hr c hc r rest writes log nread hw hne
+
+
+/-! ## The same statements about the SOURCE-REGENERATED code
+
+`Gen.ebb_serial_query` / `Gen.ebb_serial_command` are regenerated from `plotink/ebb_serial.py` on every run
+(`translator/pyio2lean.py`, combinators and exception semantics of `Plotink/PyIO.lean`).  `C07_gen_bridge` connects
+them to the hand model with the parameters `std` — the retry bound 100, the no-OK list and the decode in the retry
+loop are thereby read off the regenerated code by the proof (a source with other values no longer satisfies the
+bridge and the build fails).  Domain of the bridge: the port object and a `str` text are passed (any `verbose`),
+fuel ≥ 101 (the loops make at most 100 passes), and every scripted fault is of a class the handlers name
+(`C07Gen.IoScript`: `SerialException` and subclasses, `OSError`/`IOError`, `RuntimeError`). -/
+
+/-- where a call of a regenerated function leaves the port -/
+def C07.outPort : PyIO.Out → Option Port
+  | .val _ p => some p
+  | .exc _ p => some p
+  | .fuelOut => none
+
+/-- **Bridge.**  The regenerated `query` and `command` compute exactly what the hand model computes: same value
+and type, same escaping exception, same script left, same write log and read count. -/
+theorem C07_gen_bridge (fuel : Nat) (hf : 101 ≤ fuel) (c : Str) (vb : PyIO.Val) (p : Port)
+    (hio : C07Gen.IoScript p) :
+    Gen.ebb_serial_query fuel .port (.str c) vb p = C07Gen.encOut (query std c p) ∧
+    Gen.ebb_serial_command fuel .port (.str c) vb p = C07Gen.encOut (command std c p) :=
+  ⟨C07Gen.query_bridge fuel hf c vb p hio, C07Gen.command_bridge fuel hf c vb p hio⟩
+
+/-- **Exactly one write** (regenerated code): with a port and an ASCII text the call ends (value or escaping
+exception, never out of fuel) with exactly the request appended to the write log; with no port (`None`) or no text
+nothing is touched and `None` is returned. -/
+theorem C07_gen_one_write (fuel : Nat) (hf : 101 ≤ fuel) (c : Str) (hc : isAscii c = true) (vb : PyIO.Val)
+    (p : Port) (hio : C07Gen.IoScript p) :
+    (∃ p', C07.outPort (Gen.ebb_serial_query fuel .port (.str c) vb p) = some p' ∧ p'.log = p.log ++ [c]) ∧
+    (∃ p', C07.outPort (Gen.ebb_serial_command fuel .port (.str c) vb p) = some p' ∧ p'.log = p.log ++ [c]) ∧
+    (∀ cmd, Gen.ebb_serial_query fuel .none cmd vb p = .val .none p ∧
+            Gen.ebb_serial_command fuel .none cmd vb p = .val .none p) ∧
+    Gen.ebb_serial_query fuel .port .none vb p = .val .none p ∧
+    Gen.ebb_serial_command fuel .port .none vb p = .val .none p := by
+  obtain ⟨hq, hcm⟩ := C07_gen_bridge fuel hf c vb p hio
+  refine ⟨⟨(query std c p).2, ?_, query_log std c p hc⟩, ⟨(command std c p).2, ?_, command_log std c p hc⟩,
+    fun cmd => ⟨C07Gen.query_noop fuel .none cmd vb p (Or.inl rfl), C07Gen.command_noop fuel .none cmd vb p (Or.inl rfl)⟩,
+    C07Gen.query_noop fuel .port .none vb p (Or.inr ⟨Or.inl rfl, rfl⟩),
+    C07Gen.command_noop fuel .port .none vb p (Or.inr ⟨Or.inl rfl, rfl⟩)⟩
+  · rw [hq]
+    rcases query std c p with ⟨r, p'⟩
+    cases r <;> rfl
+  · rw [hcm]
+    rcases command std c p with ⟨r, p'⟩
+    cases r <;> rfl
+
+/-- **Never raises** (regenerated code): on every script over {ASCII line, empty, serial I/O exception} the
+regenerated functions return a value; `query` returns a `str`, `command` returns `None`. -/
+theorem C07_gen_no_raise (fuel : Nat) (hf : 101 ≤ fuel) (c : Str) (hc : isAscii c = true) (vb : PyIO.Val)
+    (p : Port) (hio : C07Gen.IoScript p) (hp : allAscii p.reads = true) :
+    (∃ s p', Gen.ebb_serial_query fuel .port (.str c) vb p = .val (.str s) p') ∧
+    (∃ p', Gen.ebb_serial_command fuel .port (.str c) vb p = .val .none p') := by
+  obtain ⟨hq, hcm⟩ := C07_gen_bridge fuel hf c vb p hio
+  have h1 := (query_text std c p rfl hc hp).1
+  have h2 := (command_ok std c p hc hp).1
+  constructor
+  · rw [hq]
+    rcases hqq : query std c p with ⟨r, p'⟩
+    rw [hqq] at h1
+    simp only at h1
+    subst h1
+    exact ⟨_, p', rfl⟩
+  · rw [hcm]
+    rcases hqq : command std c p with ⟨r, p'⟩
+    rw [hqq] at h2
+    simp only at h2
+    subst h2
+    exact ⟨p', rfl⟩
+
+/-- **`query` returns text** (regenerated code): the `str` that arrived within the first 101 reads, `''` when
+nothing arrived or the write failed. -/
+theorem C07_gen_text (fuel : Nat) (hf : 101 ≤ fuel) (c : Str) (hc : isAscii c = true) (vb : PyIO.Val)
+    (p : Port) (hio : C07Gen.IoScript p) (hp : allAscii p.reads = true) :
+    ∃ p', Gen.ebb_serial_query fuel .port (.str c) vb p =
+      .val (.str (if firstWriteOk p = true then arrived 101 p.reads else [])) p' := by
+  have hq := (C07_gen_bridge fuel hf c vb p hio).1
+  have h1 := (query_text std c p rfl hc hp).1
+  rw [hq]
+  rcases hqq : query std c p with ⟨r, p'⟩
+  rw [hqq] at h1
+  simp only at h1
+  subst h1
+  exact ⟨p', rfl⟩
+
+/-- **Reads consumed** (regenerated code): on a well-formed reply (each line after at most 100 empty reads) an
+ordinary query consumes exactly data line and trailing line, a no-OK query and a command exactly one line, and
+nothing of what follows (`rest`). -/
+theorem C07_gen_reads (fuel : Nat) (hf : 101 ≤ fuel) (c : Str) (hc : isAscii c = true) (vb : PyIO.Val)
+    (d1 d2 : Nat) (data trail : Bytes) (rest : List Rd) (writes : List Wr) (log : List Bytes) (nread : Nat)
+    (h1 : d1 ≤ 100) (h2 : d2 ≤ 100) (hd : data ≠ []) (ht : trail ≠ [])
+    (ha : isAscii data = true) (hat : isAscii trail = true)
+    (hw : ∀ w, writes.head? = some w → w = .ok) (hws : C07Gen.IoWrites writes) (hrest : C07Gen.IoReads rest) :
+    (std.noOK.contains (reqName c) = false →
+      Gen.ebb_serial_query fuel .port (.str c) vb
+          ⟨List.replicate d1 .empty ++ .line data :: (List.replicate d2 .empty ++ .line trail :: rest), writes, log, nread⟩
+        = .val (.str data) ⟨rest, writes.tail, log ++ [c], nread + d1 + d2 + 2⟩) ∧
+    (std.noOK.contains (reqName c) = true →
+      Gen.ebb_serial_query fuel .port (.str c) vb ⟨List.replicate d1 .empty ++ .line data :: rest, writes, log, nread⟩
+        = .val (.str data) ⟨rest, writes.tail, log ++ [c], nread + d1 + 1⟩) ∧
+    Gen.ebb_serial_command fuel .port (.str c) vb ⟨List.replicate d1 .empty ++ .line trail :: rest, writes, log, nread⟩
+        = .val .none ⟨rest, writes.tail, log ++ [c], nread + d1 + 1⟩ := by
+  obtain ⟨r1, r2, r3, _, _⟩ := C07_reads std rfl c hc d1 d2 data trail rest writes log nread h1 h2 hd ht ha hat hw
+  have hmem : ∀ (d : Nat) (l : Rd) (tl : List Rd) (cl : PyIO.ExcClass),
+      PyIO.Rd.raise cl ∈ List.replicate d PyIO.Rd.empty ++ l :: tl → PyIO.Rd.raise cl = l ∨ PyIO.Rd.raise cl ∈ tl := by
+    intro d l tl cl hm
+    rcases List.mem_append.mp hm with hm | hm
+    · exact absurd (List.eq_of_mem_replicate hm) (by intro h; cases h)
+    · exact List.mem_cons.mp hm
+  refine ⟨fun hno => ?_, fun hno => ?_, ?_⟩
+  · have hio : C07Gen.IoScript
+        ⟨List.replicate d1 .empty ++ .line data :: (List.replicate d2 .empty ++ .line trail :: rest), writes, log, nread⟩ := by
+      refine ⟨fun cl hm => ?_, hws⟩
+      rcases hmem _ _ _ _ hm with h | hm
+      · cases h
+      · rcases hmem _ _ _ _ hm with h | hm
+        · cases h
+        · exact hrest cl hm
+    rw [(C07_gen_bridge fuel hf c vb _ hio).1, r1 hno]
+    rfl
+  · have hio : C07Gen.IoScript ⟨List.replicate d1 .empty ++ .line data :: rest, writes, log, nread⟩ := by
+      refine ⟨fun cl hm => ?_, hws⟩
+      rcases hmem _ _ _ _ hm with h | hm
+      · cases h
+      · exact hrest cl hm
+    rw [(C07_gen_bridge fuel hf c vb _ hio).1, r2 hno]
+    rfl
+  · have hio : C07Gen.IoScript ⟨List.replicate d1 .empty ++ .line trail :: rest, writes, log, nread⟩ := by
+      refine ⟨fun cl hm => ?_, hws⟩
+      rcases hmem _ _ _ _ hm with h | hm
+      · cases h
+      · exact hrest cl hm
+    rw [(C07_gen_bridge fuel hf c vb _ hio).2, r3]
+    rfl
+
+/-- a list of exchanges run on the regenerated functions (the board queues its reply when the request is
+written); the run stops at a call that runs out of fuel -/
+def C07.genRunSeq (fuel : Nat) (vb : PyIO.Val) : List Exch → Port → List PyIO.Out
+  | [], _ => []
+  | e :: es, p =>
+    let out := (if e.isQuery then Gen.ebb_serial_query fuel .port (.str e.cmd) vb
+                else Gen.ebb_serial_command fuel .port (.str e.cmd) vb) { p with reads := p.reads ++ e.reply std }
+    match C07.outPort out with
+    | some p' => out :: C07.genRunSeq fuel vb es p'
+    | none => [out]
+
+/-- what is observed of one call: the value returned (`none` = an exception escaped or the fuel ran out), the
+device queue and the write log afterwards -/
+def C07.outView : PyIO.Out → Option PyIO.Val × List Rd × List Bytes
+  | .val v p => (some v, p.reads, p.log)
+  | .exc _ p => (Option.none, p.reads, p.log)
+  | .fuelOut => (Option.none, [], [])
+
+/-- what a conforming board requires: the data line of each request (`None` for a command), the queue empty after
+every call, exactly the requests so far in the write log -/
+def C07.genAlignedTrace : List Exch → List Bytes → List (Option PyIO.Val × List Rd × List Bytes)
+  | [], _ => []
+  | e :: es, lg =>
+    (some (if e.isQuery then .str e.data else .none), [], lg ++ [e.cmd]) :: C07.genAlignedTrace es (lg ++ [e.cmd])
+
+/-- **Alignment** (regenerated code): against a conforming legacy board, from an empty device queue and with
+writes that succeed, the `k`-th call of the regenerated functions returns the data line of the `k`-th request
+(`None` for a command), leaves the device queue empty, and the write log holds exactly the requests so far. -/
+theorem C07_gen_aligned (fuel : Nat) (hf : 101 ≤ fuel) (vb : PyIO.Val) (es : List Exch)
+    (hconf : ∀ e ∈ es, e.Conforms std) (p : Port) (hq : p.reads = []) (hw : ∀ w ∈ p.writes, w = .ok) :
+    (C07.genRunSeq fuel vb es p).map C07.outView = C07.genAlignedTrace es p.log := by
+  induction es generalizing p with
+  | nil => rfl
+  | cons e es ih =>
+    obtain ⟨reads, writes, log, nread⟩ := p
+    simp only at hq hw
+    subst hq
+    have hce := hconf e List.mem_cons_self
+    obtain ⟨n', hstep⟩ := exch_step std rfl e hce writes log nread hw
+    have hio : C07Gen.IoScript ⟨[] ++ e.reply std, writes, log, nread⟩ :=
+      ⟨fun cl hm => absurd (by simpa using hm) (reply_no_raise std e cl), fun cl hm => by cases hw _ hm⟩
+    obtain ⟨bq, bc⟩ := C07_gen_bridge fuel hf e.cmd vb _ hio
+    have hwt : ∀ w ∈ writes.tail, w = .ok := fun w h => hw w (List.mem_of_mem_tail h)
+    have hout : (if e.isQuery then Gen.ebb_serial_query fuel .port (.str e.cmd) vb
+                else Gen.ebb_serial_command fuel .port (.str e.cmd) vb) ⟨[] ++ e.reply std, writes, log, nread⟩
+        = .val (if e.isQuery then .str e.data else .none) ⟨[], writes.tail, log ++ [e.cmd], n'⟩ := by
+      cases hqe : e.isQuery
+      · simp only [hqe, Bool.false_eq_true, ↓reduceIte] at hstep ⊢
+        rw [bc, hstep]
+        simp only [Exch.expected, hqe, Bool.false_eq_true, ↓reduceIte]
+        rfl
+      · simp only [hqe, ↓reduceIte] at hstep ⊢
+        rw [bq, hstep]
+        simp only [Exch.expected, hqe, ↓reduceIte]
+        rfl
+    unfold C07.genRunSeq
+    simp only [hout, C07.outPort, List.map_cons, C07.outView, C07.genAlignedTrace, List.cons.injEq, true_and]
+    exact ih (fun e' he' => hconf e' (List.mem_cons_of_mem _ he')) ⟨[], writes.tail, log ++ [e.cmd], n'⟩ rfl hwt
 
 /-! ## Non-vacuity: the hypotheses are met by concrete instances, and the model computes the
 expected answers on them (kernel evaluation). -/
@@ -199,7 +395,7 @@ example : std.decodeRetry = true := rfl
 /-- scripts of the fault alphabet satisfy the hypotheses of `C07_no_raise` / `C07_text`: an error line,
 timeouts, an I/O exception, a fragment without terminator -/
 example : isAscii "QS\r".toList = true ∧
-    allAscii [.line "!8 Err: Unknown command\r\n".toList, .empty, .raiseIO, .line "3,".toList] = true := by
+    allAscii [.line "!8 Err: Unknown command\r\n".toList, .empty, .raise .serialException, .line "3,".toList] = true := by
   decide
 
 /-- the hypotheses of `C07_reads` are satisfiable at the boundary: exactly `retry` empties before each line -/
@@ -215,6 +411,37 @@ example : (query { std with retry := 3 } "V\r".toList ⟨List.replicate 4 .empty
     = (.ok (.str []), ⟨[.line "EBB\r\n".toList], [], ["V\r".toList], 4⟩) := by
   decide
 
+/-- the fault hypothesis of the bridge is met by the exception classes pyserial and the OS raise; an exception
+of another class (`ValueError`) is not a serial I/O exception -/
+example : C07Gen.IoClass .serialException ∧ C07Gen.IoClass .serialTimeoutException ∧ C07Gen.IoClass .portNotOpenError ∧
+    C07Gen.IoClass .osError ∧ C07Gen.IoClass .runtimeError ∧ ¬ C07Gen.IoClass .valueError := by
+  refine ⟨rfl, rfl, rfl, rfl, rfl, ?_⟩
+  intro h
+  cases h
+
+example : C07Gen.IoScript ⟨[.empty, .raise .serialTimeoutException, .line "1\r\n".toList], [.raise .osError], [], 0⟩ := by
+  constructor
+  · intro c hc
+    simp only [List.mem_cons, List.mem_nil_iff, or_false, reduceCtorEq, false_or, PyIO.Rd.raise.injEq] at hc
+    subst hc
+    rfl
+  · intro c hc
+    simp only [List.mem_cons, List.mem_nil_iff, or_false, PyIO.Wr.raise.injEq] at hc
+    subst hc
+    rfl
+
+/-- the regenerated `query`, evaluated by the kernel: a timeout, the data line, the trailing `OK` -/
+example : Gen.ebb_serial_query 101 .port (.str "QS\r".toList) (.bool true)
+    ⟨[.empty, .line "3,4\r\n".toList, .line "OK\r\n".toList, .line "next".toList], [], [], 0⟩
+    = .val (.str "3,4\r\n".toList) ⟨[.line "next".toList], [], ["QS\r".toList], 3⟩ := by
+  rfl
+
+/-- … and an `OSError` on a retry read: contained by the handler, `''` is returned -/
+example : Gen.ebb_serial_query 101 .port (.str "QS\r".toList) (.bool false)
+    ⟨[.empty, .raise .osError, .line "3,4\r\n".toList], [], [], 0⟩
+    = .val (.str []) ⟨[.line "3,4\r\n".toList], [], ["QS\r".toList], 2⟩ := by
+  rfl
+
 /-- an ordinary query after one timeout, then a no-OK query, then a command: a conforming history -/
 def C07.demo : List Exch :=
   [⟨true, "QS\r".toList, 1, "3,4\r\n".toList, 0, "OK\r\n".toList⟩,
@@ -229,9 +456,9 @@ example : runSeq std C07.demo ⟨[], [], [], 0⟩ =
   decide
 
 /-- a fault history: write raises / read raises / silence — `''`, never an exception -/
-example : (call std ⟨true, some "QS\r".toList⟩ (some ⟨[.line "1\r\n".toList], [.raiseIO], [], 0⟩)).1
+example : (call std ⟨true, some "QS\r".toList⟩ (some ⟨[.line "1\r\n".toList], [.raise .serialException], [], 0⟩)).1
     = .ok (.str []) := by decide
-example : (call std ⟨true, some "QS\r".toList⟩ (some ⟨[.empty, .raiseIO, .line "1\r\n".toList], [], [], 0⟩)).1
+example : (call std ⟨true, some "QS\r".toList⟩ (some ⟨[.empty, .raise .serialException, .line "1\r\n".toList], [], [], 0⟩)).1
     = .ok (.str []) := by decide
 /-- the unrepaired retry loop on the same kind of history -/
 example : (query { std with decodeRetry := false } "QS\r".toList ⟨[.empty, .line "1\r\n".toList], [], [], 0⟩).1
